@@ -124,7 +124,7 @@ func (c *Ctx) intrinsicPattern(s *State, fr *Frame, x ssa.Instruction, fn *ssa.F
 						for k, fv := range pf.FreeVars {
 							name := fv.Name()
 							if name == "_" {
-								name = fmt.Sprintf("_%d", blanks)
+								name = blankFreeVarName(pf, fv, blanks)
 								blanks++
 							}
 							if k < len(cl.Bindings) {
